@@ -7,10 +7,11 @@ CONSTANTS
   MaxAtoms = 2
   GuardSet = {"none", "isnone", "other"}
   Narrow = FALSE
-  Shapes = {"one", "chain", "prim"}
+  Shapes = {"one", "chain", "prim", "dia"}
   ForeignGuardMisread = FALSE
   StrictPositiveMin = FALSE
   RaiseOnConflict = FALSE
+  SnapshotStacking = FALSE
   NegativeMaxIsError = TRUE
 INVARIANT TypeOK
 INVARIANT Exact
